@@ -300,6 +300,34 @@ pub fn run_prop<P: Prop>(p: &P, ctx: &Ctx) -> i32 {
     println!("{l}");
   }
 
+  // 1b. regression tier: saved minimal inputs of earlier findings (fixed defects, sensitivity
+  // mutants), re-evaluated without proptest and without any tolerance
+  let mut regress_n = 0u64;
+  if !ctx.sub {
+    let dir = format!("{}/regress/{}", ctx.verif_dir, P::ID);
+    let mut files: Vec<_> = std::fs::read_dir(&dir).map(|d| d.filter_map(|e| e.ok()).map(|e| e.path()).collect()).unwrap_or_default();
+    files.sort();
+    for f in files {
+      if f.extension().map_or(true, |e| e != "json") {
+        continue;
+      }
+      let Some(case) = std::fs::read_to_string(&f)
+        .ok()
+        .and_then(|s| serde_json::from_str::<serde_json::Value>(&s).ok())
+        .and_then(|v| serde_json::from_value::<P::Case>(if v.get("case").is_some() { v["case"].clone() } else { v }).ok())
+      else {
+        eprintln!("warning: regression input {} unreadable", f.display());
+        continue;
+      };
+      regress_n += 1;
+      if let Err(reason) = crate::known::with_strict(|| eval_case(p, &case).1) {
+        println!("regression input {}: {reason}", f.display());
+        println!("VIOLATION property={} replay={}", P::ID, f.display());
+        return 1;
+      }
+    }
+  }
+
   // 2. the legs
   for leg in p.legs(ctx.tier) {
     if stop.load(Ordering::SeqCst) {
@@ -553,6 +581,7 @@ pub fn run_prop<P: Prop>(p: &P, ctx: &Ctx) -> i32 {
     .unwrap(),
   );
   coverage.insert("excluded_known".into(), stats.excluded_known.into());
+  coverage.insert("regression_inputs_replayed".into(), regress_n.into());
   coverage.insert("known_findings_reported".into(), known_lines.clone().into());
   if !exhaustive_legs.is_empty() {
     coverage.insert("exhaustive_legs".into(), exhaustive_legs.iter().map(|s| s.to_string()).collect::<Vec<_>>().into());
